@@ -204,6 +204,10 @@ type c18Op struct {
 	// mutex mode: which of the member's cluster.Mutex VALUES for the one lock
 	// name the goroutine uses (only with scenario.values == 2)
 	Obj int `json:"obj,omitempty"`
+	// mutex mode, values == 2: before this Lock the goroutine asks cluster.Mutex
+	// for the name AGAIN (a component re-created by a spec update does) and locks
+	// through the new value, which also becomes the member's value 1 from then on
+	Renew bool `json:"renew,omitempty"`
 }
 
 type c18Task struct {
@@ -250,6 +254,10 @@ type c18Scenario struct {
 	// mutex mode: number of cluster.Mutex values every member creates for the
 	// one lock name (1, or 2 with c18GenSecondValue)
 	Values int `json:"values,omitempty"`
+	// mutex mode, values == 2: the second value of a member is not created at the
+	// start but by the first goroutine that needs it (i.e. possibly after other
+	// values of the name went through Lock/Unlock cycles)
+	LazyValue bool `json:"lazy_value,omitempty"`
 }
 
 // ---- switches for the generator ranges added by the extension round ("ordinary
@@ -264,6 +272,8 @@ const (
 	// mutex mode: two cluster.Mutex values for ONE name on one member (found
 	// C18.two-holders-two-mutex-values-one-member, repaired in /repo c2b83a7)
 	c18GenSecondValue = true
+	// ... values of the name created in the middle of the run (lazily / again)
+	c18GenLateValues = true
 )
 
 var c18DefaultNames = []string{"a", "b", "c"}
@@ -367,6 +377,7 @@ func c18Gen(rng *sim.Rand, tier string) interface{} {
 		}
 		if c18GenSecondValue && rng.Bool(0.3) {
 			sc.Values = 2
+			sc.LazyValue = c18GenLateValues && rng.Bool(0.5)
 		}
 		holds := []int64{0, 1, 1000, 20_000, 20_000, 400_000}
 		if rng.Bool(0.4) {
@@ -383,6 +394,9 @@ func c18Gen(rng *sim.Rand, tier string) interface{} {
 					op := c18Op{GapUs: int64(rng.Pick(0, 0, 1, 1307, 52_101, 303_217)), HoldUs: holds[rng.Intn(len(holds))]}
 					if sc.Values == 2 {
 						op.Obj = rng.Intn(2)
+						if c18GenLateValues && rng.Bool(0.15) {
+							op.Obj, op.Renew = 1, true
+						}
 					}
 					tot += op.GapUs + op.HoldUs
 					t.Ops = append(t.Ops, op)
@@ -1467,7 +1481,7 @@ func c18Exec(r *sim.Run, sci interface{}) {
 				return
 			}
 			m.obs = mx.(*c18ObsMutex)
-			if sc.Values == 2 && i < nm {
+			if sc.Values == 2 && i < nm && !sc.LazyValue {
 				// a second component of the same process asks for "the" cluster mutex
 				// of that name (cluster.Mutex hands out a new value per call)
 				mx2, err := m.cls.Mutex(lockName)
@@ -1603,6 +1617,17 @@ func c18Exec(r *sim.Run, sci interface{}) {
 				if sc.Mode == "mutex" {
 					id := fmt.Sprintf("%s#%d", name, oi)
 					mx := m.obs
+					if sc.Values == 2 && op.Obj == 1 && (m.obs2 == nil || op.Renew) {
+						// a value of the name created in the middle of the run
+						if mx2, err := m.cls.Mutex(lockName); err == nil {
+							if e.acquired > 0 {
+								r.Probe("mutex_value_created_after_lock_unlock_cycles")
+							}
+							m.obs2 = mx2.(*c18ObsMutex)
+						} else {
+							r.Eventf("%s cluster.Mutex failed", id)
+						}
+					}
 					if op.Obj == 1 && m.obs2 != nil {
 						mx = m.obs2
 						r.Probe("second_mutex_value_of_member_used")
